@@ -187,6 +187,21 @@ Definition pgetstate (h : heap) (stored : list nat) (n : tree) : record V :=
 
 End Chain.
 
+(* PreviousBucket(&current, first) of BTreeItemsTemplate.c: walk from [first]
+   along next, one bucket behind, until the walker reaches [cur].  None: cur is
+   first itself, or the chain ends without meeting it (the C function's 0) *)
+Fixpoint prev_loop (fuel : nat) (h : heap) (trailing : nat) (cur : nat) : option nat :=
+  match fuel with
+  | O => None
+  | S f =>
+    match nx h trailing with
+    | Some nxt => if Nat.eqb nxt cur then Some trailing else prev_loop f h nxt cur
+    | None => None
+    end
+  end.
+Definition prev_bucket (fuel : nat) (h : heap) (first cur : nat) : option nat :=
+  if Nat.eqb first cur then None else prev_loop fuel h first cur.
+
 (* ================= a run of the primitive writes ================= *)
 (* Every public call of TreeRun.step changes the tree through insertions,
    deletions and clear only; the pointer model is driven by those. *)
